@@ -90,6 +90,11 @@ func (e Expectation) AssertValidity(notBefore, notAfter time.Time) error {
 		return errorchain.NewWithMessage(ErrAssertion, "expired")
 	}
 
+	// an expiration time at or before the unix epoch is not the same as an absent one
+	if !notAfter.IsZero() && exp <= 0 {
+		return errorchain.NewWithMessage(ErrAssertion, "expired")
+	}
+
 	return nil
 }
 
